@@ -189,7 +189,9 @@ def main(pid):
                               "expected": [{k: v for k, v in e.items() if k != "plaintiff_cp"} for e in exps[ix]],
                               "observed": [dict(o, plaintiff="".join(map(chr, o["plaintiff_cp"]))) for o in obs[ix]["obs"]]},
                          {"clause": cl, "form": metas[ix]["shape"]["form"], "label": metas[ix]["label"],
-                          "mechanism": mechanism(cl, exps[ix], obs[ix]["obs"])})
+                          "mechanism": mechanism(cl, exps[ix], obs[ix]["obs"])},
+                         judge=vlib.J("Trace_Forms", "Trace_Forms.cfg", traces[ix]),
+                         rerun=vlib.R("drv_extract", "run_forms", items[ix], fields=["obs", "raised"]))
     ev.sample({"text": items[0]["text"], "expected": {k: v for k, v in exps[0][0].items() if k not in ("plaintiff_cp",)}})
     ev.cov["traces_validated_against_impl"] = len(traces)
     ev.cov["evaluations"] = len(traces)
